@@ -15,11 +15,12 @@ PROPS["C10"] = {
                 "canAppend literal merging, reduce; parseClass; parseEscape; parseQuantifier; hexval; octval) mirrored step by step on bytes with offsets; the parser's flat stack is a list of frames and "
                 "the first error stops the model; unicode tables and SimpleFold enter as data from the Go standard library",
     "partial": "'every error lies inside the pattern' is proved for parser.next only and oracle-checked for the whole parser; class_spec is proved at assembly level "
-               "(parseClass returns class_den of the collected ranges/subtracted sets, and class_den has the documented semantics) but not from the concrete syntax "
-               "(that the scanning loop collects exactly what is written, incl. rejection of hi<lo, is compared with the implementation and oracle-checked); print_parse is realised as the "
+               "(parseClass returns class_den of the collected ranges/subtracted sets, and class_den has the documented semantics) and from the concrete syntax for the grammar of ClassText.v "
+               "(ASCII literal characters, ranges, \\a\\f\\n\\r\\t\\v, subtracted nested sets one level deep, both negations, runes/bytes, fold on/off; a descending first range is rejected with its offsets); "
+               "outside that grammar (non-ASCII literals, '.', \\d\\w\\s\\p{..}\\x..\\u.. and octal escapes inside a class, ']' in first position, deeper nesting) the scanning loop is compared with the implementation and oracle-checked; print_parse is realised as the "
                "specification evaluator (RegexSpec.v, built from the proved operations) instead of a theorem about the parser model",
     "level_text": "Universal Coq theorems for every charset operation of lex/charset.go (newCharset, invert, subtract, intersect, appendRange: exact set semantics for all range lists and all code points plus "
-                  "normal-form preservation; fold: sound and extensive for every fold function, and EXACTLY the union of members and their fold orbits, in normal form, whenever the orbits of the members close within the bound (C10_fold_exact)), for the assembly of bracket expressions (C10_parse_class_is_class_den, C10_class_den_spec: members minus subtracted sets, fold-orbit closure, complement within [0,max] when negated), for hexval/octval (exactly the hexadecimal/octal digits) and for the escape accumulator "
+                  "normal-form preservation; fold: sound and extensive for every fold function, and EXACTLY the union of members and their fold orbits, in normal form, whenever the orbits of the members close within the bound (C10_fold_exact)), for the assembly of bracket expressions (C10_parse_class_is_class_den, C10_class_den_spec: members minus subtracted sets, fold-orbit closure, complement within [0,max] when negated), for the scanning loop of parseClass on every printed well-formed bracket expression of the ClassText grammar at any offset of an ASCII pattern (C10_parse_class_of_print: it consumes exactly the class and collects exactly the written ranges, as a set, and the written subtracted sets in order; C10_parse_class_rejects_descending), for hexval/octval (exactly the hexadecimal/octal digits) and for the escape accumulator "
                   "(never wraps: within unicode.MaxRune iff the exact value is). The step-by-step model of ParseRegexp is compared with lex.ParseRegexp (AST with offsets, or error id and offsets) on thousands of "
                   "documented, malformed and mutated patterns per run; independently the implementation's AST is compared at language level with the documented meaning evaluated by the proved operations, "
                   "malformed-by-construction patterns must be rejected, and every error must lie inside the pattern.",
